@@ -20,6 +20,15 @@ def beat(n):
 '''
 
 
+def pname(i):
+    """Plugin names are prefixes of one another (PX, PXX, PXXX): the switch PLUGIN_<NAME> names ONE plugin."""
+    return 'P' + 'X' * i
+
+
+def pindex(name):
+    return len(name) - 1
+
+
 def mc_cfg(ab=False, n=2, rich=False, invs=INVS, lives=1):
     return dict(constants=dict(MaxPlugins=n, AbortOnFirstFailure=ab, Rich=rich, MaxLives=lives), invariants=invs,
                 deadlock=False)
@@ -53,7 +62,7 @@ def run_case(wd, plugins, span_first=False, later_lives=()):
                 names.append('no_such_module_%d.P%d' % (id(out), i))
                 continue
             faults = {FAULT_NAME.get(f, f) for f in rec['faults']}
-            p = R.role_plugin('P%d' % i, set(rec['roles']), faults=faults, order_=rec['order'] - 1)
+            p = R.role_plugin(pname(i), set(rec['roles']), faults=faults, order_=rec['order'] - 1)
             p.is_active = types.MethodType(Plugin.is_active, p)       # the real activation rule
             insts[i] = p
 
@@ -65,7 +74,7 @@ def run_case(wd, plugins, span_first=False, later_lives=()):
             setattr(m, 'P%d' % i, factory)
             names.append('%s.P%d' % (m.__name__, i))
             if rec['load'] == 'inactive':
-                custom['PLUGIN_P%d' % i] = 'false'
+                custom['PLUGIN_%s' % pname(i)] = 'false'
         # the first half plays the built-in plugin list, the rest is configured by the user: one combined order
         nb = len(names) // 2
         plugin_mod.DEEP_PLUGINS = names[:nb]
@@ -82,9 +91,9 @@ def run_case(wd, plugins, span_first=False, later_lives=()):
                     # the application switches plugins on/off by configuration and starts the agent again
                     for i, rec in enumerate(life_plugins, 1):
                         if rec['load'] == 'inactive':
-                            cfg._ConfigService__custom['PLUGIN_P%d' % i] = 'false'
+                            cfg._ConfigService__custom['PLUGIN_%s' % pname(i)] = 'false'
                         elif rec['load'] == 'ok':
-                            cfg._ConfigService__custom.pop('PLUGIN_P%d' % i, None)
+                            cfg._ConfigService__custom.pop('PLUGIN_%s' % pname(i), None)
                     for p in insts.values():
                         del p.calls[:]
                         del p.spans[:]
@@ -118,7 +127,7 @@ def run_case(wd, plugins, span_first=False, later_lives=()):
                     problems.append('the agent did not start')
                 deep.task_handler.flush()            # the initial config update is applied by a pool task
                 deep.task_handler._open = True
-                loaded = [int(p.name[1:]) for p in cfg.plugins]
+                loaded = [pindex(p.name) for p in cfg.plugins]
                 try:
                     res = mod.beat(1)
                 except BaseException as ex:
@@ -140,7 +149,7 @@ def run_case(wd, plugins, span_first=False, later_lives=()):
                 for req in sent:
                     for kv in req.attributes:
                         if kv.key.startswith('dec.P'):
-                            decos.add(int(kv.key[5:]))
+                            decos.add(pindex(kv.key[4:]))
                 lives_out.append(dict(loaded=loaded, called=called, sent=len(sent), decorations=sorted(decos),
                                       problems=problems,
                                       resource_keys=sorted(k for k in cfg.resource.attributes.keys()
@@ -186,7 +195,7 @@ def compare(final, real):
         problems.append('%d snapshots delivered, expected 1' % real['sent'])
     elif real['decorations'] != exp_dec:
         problems.append('snapshot decorations from %s, expected %s' % (real['decorations'], exp_dec))
-    exp_res = sorted('plugin.P%d' % i for i in loadable if 'resource' in plugins[i - 1]['roles']
+    exp_res = sorted('plugin.%s' % pname(i) for i in loadable if 'resource' in plugins[i - 1]['roles']
                      and 'resource' not in plugins[i - 1]['faults'])
     if real['resource_keys'] != exp_res:
         problems.append('resource contributions %s, expected %s' % (real['resource_keys'], exp_res))
